@@ -339,7 +339,21 @@ def v7(ctx, rid):
         if not f.id.endswith('RawRecords::read_current_record::{closure#0}'):
             continue
         adv = cursor_advances(prog, f)
-        reads = [c for c in f.calls if c.name.startswith('read_exact_at') and c.path.startswith('io::') and c.bb in f.reachable()]
+        def io_read(c):
+            return c.name.startswith('read_exact_at') and c.path.startswith('io::')
+
+        def reads_file(c, depth=2):
+            # the read itself, or a helper of the scan (same file) that performs it at the cursor it finds
+            if io_read(c):
+                return True
+            if depth <= 0:
+                return False
+            for t in prog.resolve(c):
+                g = prog.body_of(t) if t in prog.fns else None
+                if g is not None and g.id != f.id and g.file == f.file and any(reads_file(x, depth - 1) for x in g.calls if x.bb in g.reachable()):
+                    return True
+            return False
+        reads = [c for c in f.calls if c.bb in f.reachable() and c.name != 'poll' and reads_file(c)]
         val = [c for c in f.calls if c.name == 'validate' and 'Header' in c.path]
         data_reads = [c for c in reads if val and c.bb in f.reach_from(f.after(val[0].bb))]
         for c in data_reads:
